@@ -18,7 +18,8 @@ RULE = ('case = (pattern AST, subset of {CASE, IGNORECASE, FORCEWIN, FORCEUNIX},
         'spelling and the pattern accepts something')
 ASSUMPTIONS = ['ASCII case only', 'Windows behaviour is reached through FORCEWIN (no REALPATH)']
 
-ATOMS = (A.lit('a'), A.lit('B'), A.lit('.'), A.ANY, A.STAR, A.mkset(False, ('r', 'a', 'c')), A.mkset(True, ('c', 'B')))
+ATOMS = (A.lit('a'), A.lit('B'), A.lit('.'), A.ANY, A.STAR, A.mkset(False, ('r', 'a', 'c')), A.mkset(True, ('c', 'B')),
+         A.mkset(False, ('c', '\\')), A.mkset(False, ('c', 'a'), ('c', '\\')))
 FLAGSETS = [tuple(n for j, n in enumerate(['CASE', 'IGNORECASE', 'FORCEWIN', 'FORCEUNIX']) if i >> j & 1) for i in range(16)]
 
 
@@ -193,8 +194,12 @@ def sets_distinguish_seps(obj):
     if obj is None or isinstance(obj, A.PathPat):
         return obj is None
     for n in A.walk(obj):
-        if n[0] == 'set' and R.set_has(n, '/') != R.set_has(n, '\\'):
-            return True
+        if n[0] == 'set':
+            # an explicitly written (escaped) backslash inside the brackets is "an escaped backslash in the pattern": it is a
+            # separator and stands for both spellings; only ranges / classes that happen to contain one of the two are undecided
+            rest = ('set', False, tuple(it for it in n[2] if it != ('c', '\\')))
+            if R.set_has(rest, '/') != R.set_has(rest, '\\'):
+                return True
     return False
 
 
